@@ -31,9 +31,30 @@ type c02case struct {
 	Allowed    []string `json:"allowed"`
 }
 
+// offers reports whether an Accept-Encoding value lists coding with a non-zero quality.
+func offers(ae, coding string) bool {
+	for _, part := range strings.Split(ae, ",") {
+		f := strings.Split(part, ";")
+		if strings.TrimSpace(f[0]) != coding {
+			continue
+		}
+		q := 1.0
+		for _, p := range f[1:] {
+			p = strings.TrimSpace(p)
+			if strings.HasPrefix(p, "q=") {
+				fmt.Sscanf(p[2:], "%g", &q)
+			}
+		}
+		if q > 0 {
+			return true
+		}
+	}
+	return false
+}
+
 func main() {
 	rep := kit.NewReport("C02", "exploration",
-		"4 site variants (static, browse, browse+servearchive, address with path prefix) x request targets of 1..3 segments over an 18-symbol adversarial segment alphabet (x trailing slash x doubled leading slash) x {5 queries x html/json, 4 Accept-Encoding values, HEAD}; every token found in the decoded/unarchived body must belong to the file the cleaned path names, its directory index, an accepted sibling, or (archives) a non-hidden file below it; redirects must start with exactly one '/'; distinct_nontrivial = outcome classes")
+		"4 site variants (static, browse, browse+servearchive, address with path prefix) x request targets of 1..3 segments over an 18-symbol adversarial segment alphabet (x trailing slash x doubled leading slash) x {5 queries x html/json, 9 Accept-Encoding values (with zero qualities), HEAD}; every token found in the decoded/unarchived body must belong to the file the cleaned path names, its directory index, an accepted sibling, or (archives) a non-hidden file below it; redirects must start with exactly one '/'; distinct_nontrivial = outcome classes")
 	kit.Init()
 	kit.Log.Off.Store(true)
 	base := kit.TempDir("c02")
@@ -81,7 +102,7 @@ func main() {
 		{"prefix+browse+archive", "a.test:8080/sub", "\tbrowse / {\n\t\tservearchive\n\t}\n", "/sub"},
 	}
 	queries := []string{"", "archive=zip", "archive=tar.gz", "sort=size&order=desc", "limit=1"}
-	aes := []string{"gzip", "br", "zstd, gzip", "identity"}
+	aes := []string{"gzip", "br", "zstd, gzip", "identity", "gzip;q=0", "identity, gzip;q=0", "br;q=0, gzip", "zstd;q=0.0, br;q=0", "gzip;q=0.5"}
 	for _, v := range variants {
 		cf := fmt.Sprintf("%s {\n\troot %s\n%s}\n", v.addr, root, v.body)
 		l, err := kit.Load(cf, filepath.Join(root, "Casketfile"))
@@ -147,7 +168,7 @@ func main() {
 					if _, ok := tokens[f]; ok && f != "Casketfile" {
 						allowed[f] = true
 						for _, ext := range []string{".gz", ".br", ".zst"} {
-							if _, ok := tokens[f+ext]; ok {
+							if _, ok := tokens[f+ext]; ok && offers(q.ae, map[string]string{".gz": "gzip", ".br": "br", ".zst": "zstd"}[ext]) {
 								allowed[f+ext] = true
 							}
 						}
